@@ -1,21 +1,18 @@
 #!/bin/sh
-# usage: seedtest.sh <PROP> <seed-dir> [tier]   -- confirm a seeded change in a scratch copy and run the check against it in /repo
-# 1. scratch copy: baseline with and without patch, demo with and without patch
-# 2. /repo: apply, ./vcheck PROP quick, undo
+# usage: seedtest.sh <PROP> <seed-dir> [tier]
+# Confirms a seeded change in a scratch copy of /repo (demo passes unmodified; with the patch the repository's baseline still
+# passes and the demo fails) and runs the property's check against the patched copy (VERIF_REPO), i.e. exactly what
+# `git -C /repo apply` + ./vcheck + `git checkout` would do, without touching /repo (so several can run in parallel).
 PROP=$1; D=$2; TIER=${3:-quick}
 S=/tmp/seedchk-$$
 rm -rf $S; cp -a /repo $S
 cd $S
-echo "== unmodified: demo"
-make -s -j8 >/dev/null 2>&1
-gcc -w -DHAVE_CONFIG_H -I$S -I$S/include -I$S/include/libast $D/demo.c $S/src/.libs/libast.a -lpcre -lX11 -lm -ldl -o $S/demo0 && (timeout 60 $S/demo0 >/dev/null 2>&1; echo "demo exit (unmodified) = $?")
+make -s -j4 >/dev/null 2>&1
+gcc -w -DHAVE_CONFIG_H -I$S -I$S/include -I$S/include/libast $D/demo.c $S/src/.libs/libast.a -lpcre -lX11 -lm -ldl -o $S/demo0 2>/dev/null && (cd $S; timeout 120 $S/demo0 >/dev/null 2>&1; echo "demo exit (unmodified) = $?")
 git apply $D/patch.diff || { echo "PATCH DOES NOT APPLY"; rm -rf $S; exit 3; }
-echo "== patched: baseline + demo"
-VERIF_REPO=$S /verif/tools/baseline.sh | tail -3
-gcc -w -DHAVE_CONFIG_H -I$S -I$S/include -I$S/include/libast $D/demo.c $S/src/.libs/libast.a -lpcre -lX11 -lm -ldl -o $S/demo1 && (timeout 60 $S/demo1 >/dev/null 2>&1; echo "demo exit (patched) = $?")
-cd /; rm -rf $S
-echo "== /repo patched: ./vcheck $PROP $TIER"
-git -C /repo apply $D/patch.diff || exit 3
-cd /verif && ./vcheck $PROP $TIER 2>/dev/null | cut -c1-300 | head -8; echo "vcheck exit = $?"
-git -C /repo checkout -- . 
-git -C /repo status --short | head -3
+VERIF_REPO=$S /verif/tools/baseline.sh | tail -2
+gcc -w -DHAVE_CONFIG_H -I$S -I$S/include -I$S/include/libast $D/demo.c $S/src/.libs/libast.a -lpcre -lX11 -lm -ldl -o $S/demo1 2>/dev/null && (cd $S; timeout 120 $S/demo1 >/dev/null 2>&1; echo "demo exit (patched) = $?")
+cd /verif && VERIF_REPO=$S VERIF_JOBS=4 ./vcheck $PROP $TIER > $S.out 2>/dev/null; rc=$?
+echo "vcheck $PROP $TIER on patched copy: exit=$rc violations=$(grep -c '^VIOLATION' $S.out)"
+grep '^VIOLATION' $S.out | head -3 | cut -c1-330
+rm -rf $S $S.out
